@@ -1,5 +1,5 @@
 """C09 - CTAP1/U2F responses are encoded in the U2F raw message layout."""
-from .. import cbor, core
+from .. import cbor, core, gen
 from .common import *
 
 ID = "C09"
@@ -77,6 +77,12 @@ def cases(tier, rng, schema, feats):
         cert = hdr + (decl & (256 ** nl - 1) if nl else 0).to_bytes(nl, "big")
         cert = cert + rng.bytes(max(0, actual - len(cert)))
         regs.append((5, b"\x04" + rng.bytes(64), rng.bytes(64), cert, rng.bytes(71)))
+    # signatures that are structurally exact DER ECDSA signatures, every combination of minimal / zero-prefixed / negative integers
+    for kr in range(4):
+        for ks in range(4):
+            for _ in range(1 if tier == "quick" else 6):
+                sig = gen.der_ecdsa_sig(rng, (kr, ks))
+                regs.append((5, b"\x04" + rng.bytes(64), rng.bytes(64), rng.bytes(300), sig[:72]))
     # shapes that put part boundaries exactly on menu capacities
     regs += [(5, b"\x04" * 65, b"\x01" * 4, b"\x02" * 0, b"\x03" * 0), (5, b"\x04" * 65, b"\x01" * 70, b"\x02" * 182, b"\x03" * 2), (5, b"", b"", b"", b"")]
     for r in regs:
@@ -85,8 +91,8 @@ def cases(tier, rng, schema, feats):
                 if len(prior) <= cap:
                     add(cap, prior, "register", r)
     for count in (0, 1, 0xFF, 0x100, 0xFFFF, 0x10000, 0x01020304, 0xFFFFFFFF, rng.below(2**32)):
-        for sigl in (0, 1, 71, 72):
-            a = (rng.below(256), count, rng.bytes(sigl))
+        for sig in [rng.bytes(sigl) for sigl in (0, 1, 71, 72)] + [gen.der_ecdsa_sig(rng)[:72], gen.der_ecdsa_sig(rng, (2, 2))[:72]]:
+            a = (rng.below(256), count, sig)
             for prior in (b"", b"\xee" * 2, b"\xee" * 64):
                 for cap in around(parts_of("authenticate", a), len(prior)):
                     if len(prior) <= cap:
